@@ -892,7 +892,7 @@ class ODLParser(PVLParser):
         on numeric values, any others will result in a ValueError.
         """
 
-        if isinstance(value, int) or isinstance(value, float):
+        if isinstance(value, (int, float, self.decoder.real_cls)):
             return super().parse_units(value, tokens)
 
         else:
